@@ -535,6 +535,9 @@ func (g *msgGen) fill(m protoreflect.Message, depth int) {
 				if n > 8 {
 					key = fmt.Sprintf("key-%d", k)
 				}
+				if r.Chance(12) { // long keys (size-triggered paths), distinct by construction
+					key = fmt.Sprintf("%d-", k) + strings.Repeat(vh.Pick(r, []string{"k", "é", "-", "x y"}), vh.Pick(r, []int{20, 41, 64, 100, 255, 256, 300}))
+				}
 				if g.big && !g.malformed {
 					key = strings.ToValidUTF8(key, "?")
 				}
